@@ -635,3 +635,50 @@ def _cl_obj_ghosts(args, result, locs):
 
 for _obj in ('potts', 'negative_sym', 'negative_asym'):
     CONTRACTS['community_louvain:' + _obj].concrete_ghosts = _cl_obj_ghosts
+
+
+# ---- modularity_probtune_und_sign (C02: consistent pair; the routine is not a monotone optimiser, so no C07 clause) ----------------------
+def _setup_probtune(eng, st):
+    _setup_sign(eng, st)
+    st.env['p'] = z3.Real('p')
+
+
+_PT_INV = [
+    ('LAB-labels-in-range', "forall(lambda y: implies(inr(y, n), And(ci[y] >= 1, ci[y] <= n)))"),
+    ('FRAME-arguments-untouched', "And(unchanged('W'), unchanged('ci'), n == n0)"),
+]
+_SCALING = ("And(t0 == tsum(W0, n0), t1 == tsum(W1, n0), s0 == (t0 if t0 != 0 else 1), s1 == (t1 if t1 != 0 else 1), implies(t0 == 0, d0 == 0), implies(t1 == 0, d1 == 0), "
+            "implies(And(t0 != 0, Or(qtype == 'smp', qtype == 'sta', qtype == 'pos')), d0 == 1 / t0), implies(And(t0 != 0, qtype == 'gja'), d0 == 1 / (t0 + t1)), implies(qtype == 'neg', d0 == 0), "
+            "implies(And(t1 != 0, Or(qtype == 'smp', qtype == 'neg')), d1 == 1 / t1), implies(And(t1 != 0, Or(qtype == 'gja', qtype == 'sta')), d1 == 1 / (t0 + t1)), implies(qtype == 'pos', d1 == 0))")
+CONTRACTS['modularity_probtune_und_sign'] = Contract(
+    MOD, 'modularity_probtune_und_sign', ['W', 'qtype', 'gamma', 'ci', 'p', 'seed'], setup=_setup_probtune, nonlinear='uf',
+    requires=[('undirected', "forall(lambda x, y: implies(And(inr(x, n0), inr(y, n0)), W[x, y] == W[y, x]))")],
+    loops={
+        'for m in range(int(np.max(ci)))': {'name': 'init', 'inv': [
+            ('INIT-columns-done', "forall(lambda x, mm: implies(And(inr(x, n), mm >= 0, mm < _it), And(Knm0[x, mm] == modsum(W0, ci, x, mm, n), Knm1[x, mm] == modsum(W1, ci, x, mm, n))))"),
+            ('INIT-columns-todo', "forall(lambda x, mm: implies(And(inr(x, n), mm >= _it, mm < n), And(Knm0[x, mm] == 0, Knm1[x, mm] == 0)))")]},
+        'for u in rng.permutation(n)': {'name': 'moves', 'inv': _PT_INV},
+    },
+    ghost_after={
+        's1 = np.sum(W1)': "t0 = s0; t1 = s1",
+        'Km1 = np.sum(Knm1, axis=0)': "assume(lemma_modularity(W0, ci, n), lemma_modularity(W1, ci, n), lemma_knm_sums(Knm0, W0, ci, n, 'out'), lemma_knm_sums(Knm1, W1, ci, n, 'out'))",
+    },
+    ghost_before={"return (ci, q)": "check('kn-are-the-row-sums', forall(lambda x: implies(inr(x, n), And(Kn0[x] == rsum(W0, x, n), Kn1[x] == rsum(W1, x, n))))); "
+                                    "check('signed-parts-symmetric', forall(lambda x, y: implies(And(inr(x, n), inr(y, n)), And(W0[x, y] == W0[y, x], W1[x, y] == W1[y, x])))); "
+                                    "assume(lemma_Qrawg_def(q0, W0, ci, Kn0, gamma, s0, n), lemma_Qrawg_def(q1, W1, ci, Kn1, gamma, s1, n))"},
+    ensures=[('C02-q-is-the-signed-quality-of-the-returned-labels', "result(1) == " + (QS % ('result(0)', 'result(0)')).replace(', n)', ', n0)')),
+             ('C02-scaling-of-the-requested-type', _SCALING),
+             ('C02-labels-in-1..k', "And(unique_count() >= 1, unique_count() <= n0, forall(lambda y: implies(inr(y, n0), And(result(0)[y] >= 1, result(0)[y] <= unique_count()))))"),
+             ('C02-every-label-1..k-used', "forall(lambda l: implies(And(l >= 1, l <= unique_count()), And(inr(unique_witness(l - 1), n0), result(0)[unique_witness(l - 1)] == l)))"),
+             ('arguments-untouched', "And(unchanged('W'), unchanged('ci'))")],
+    ensures_raises=[('raises-only-for-an-unknown-type', "raised('KeyError')")])
+
+
+def _probtune_ghosts(args, result, locs):
+    import numpy as np
+    W = np.asarray(args['W'], dtype=float)
+    return {'t0': float((W * (W > 0)).sum()), 't1': float((-W * (W < 0)).sum())}
+
+
+CONTRACTS['modularity_probtune_und_sign'].concrete_ghosts = _probtune_ghosts
+CONTRACTS['modularity_finetune_und_sign'].concrete_ghosts = _probtune_ghosts
